@@ -105,7 +105,7 @@ def run_shard(spec, acc):
 
     for i in iter_cases(spec):
         rng = case_rng(spec['seed'], 'C17', kind, i)
-        prog, stats = c17_gen.gen_program(rng, multi_client=multi)
+        prog, stats = c17_gen.gen_program(rng, multi_client=multi, nrt=mode == 'nrt')
         if mode == 'nrt':
             main.reset()
         if server.addr is not plain_addr:
